@@ -39,8 +39,6 @@ func vp_C12_validity() {
 	at := spec.Timestamp(before + vpNondetU64("at_delta"))
 	strict := vpNondetBool("strict")
 	r := PublicKeyLookupResult{ExpiredTS: expired, ValidUntilTS: vu}
-	// KF-C12-1: Timestamp.Time() converts through int64, so instants >= 2^63 ms compare as dates before 1970
-	wrap := uint64(at) >= 1<<63 || uint64(vu) >= 1<<63
 	var got bool
 	if strict {
 		got = r.WasValidAt(at, StrictValiditySignatureCheck)
@@ -59,11 +57,7 @@ func vp_C12_validity() {
 	default:
 		wantLo, wantHi = true, true
 	}
-	// instants >= 2^63 ms are the region of KF-C12-1; it is exercised by vp_C12_wrap with clock-independent inputs
-	inKF := strict && expired == PublicKeyNotExpired && wrap
-	if inKF {
-		return
-	}
+	// (fixed: KF-C12-1 - instants >= 2^63 ms used to compare as dates before 1970; the whole range is asserted now)
 	vpAssert("validity-equivalence", got == wantLo || got == wantHi)
 	vpReach("strict-accept", strict && expired == PublicKeyNotExpired && got)
 	vpReach("strict-reject", strict && expired == PublicKeyNotExpired && !got && vu != 0)
@@ -71,12 +65,12 @@ func vp_C12_validity() {
 }
 
 // vp:check C12 both K=12 timeout=600
-// vp_C12_wrap: timestamps at or above 2^63 ms (KF-C12-1): the strict rule must refuse a signature time far beyond
+// vp_C12_wrap: timestamps at or above 2^63 ms (fixed: KF-C12-1): the strict rule must refuse a signature time far beyond
 // valid_until_ts; inputs are independent of the clock so the finding replays deterministically.
 func vp_C12_wrap() {
 	at := spec.Timestamp(1<<63 + vpNondetBits("at_low", 20))
 	vu := spec.Timestamp(uint64(spec.AsTimestamp(time.Now())) + 1000 + vpNondetBits("vu_low", 10))
 	got := StrictValiditySignatureCheck(at, vu)
-	vpAssertKF("late-signature-refused", !got, "KF-C12-1", uint64(at) >= 1<<63)
+	vpAssert("late-signature-refused", !got)
 	vpReach("done", true)
 }
